@@ -4,12 +4,15 @@ obligation is paired with this search; a found input is recorded as a tape and r
 import os, json, re
 import vlib
 
-ITERS = {"quick": 6000, "thorough": 60000}
+ITERS = {"quick": 200000, "thorough": 2000000}          # after a failed obligation / undecided proof
+CROSS_ITERS = {"quick": 30000, "thorough": 400000}      # independent cross-check when the proof passed
 
 
 def find_counterexample(pid, violations, seed, tier="quick"):
     # a recorded/fixed finding's witness that misbehaves is itself a failing input replayed on the real code
     for v in violations:
+        if v.get("kind") == "search" and v.get("cex"):
+            return v["cex"]
         if v.get("kind") == "witness" and v.get("verdict") in ("reproduces", "other"):
             return {"reproduced": True, "kind": "witness", "witness": v["witness"], "detail": v.get("detail")}
     binp, err = vlib.build_replay()
@@ -27,6 +30,24 @@ def find_counterexample(pid, violations, seed, tier="quick"):
     m = re.search(r"NONE evaluations=(\d+) distinct=(\d+)", out)
     return {"reproduced": False, "kind": "search", "evaluations": int(m.group(1)) if m else 0, "search_s": round(dt, 1),
             "note": "no failing input found by the native search within its budget; the failed obligations and the verifier's output are in `violations`"}
+
+
+def crosscheck(pid, seed, tier):
+    """the proof passed: run the differential search anyway (contract-gap detector); returns (summary, cex or None)"""
+    binp, err = vlib.build_replay()
+    if binp is None:
+        return {"error": "replay crate does not build"}, None
+    rc, out, se, dt = vlib.run([binp, "search", pid, str(seed), str(CROSS_ITERS.get(tier, 30000))], timeout=900)
+    m = re.search(r"^FOUND (\{.*\})\s*$", out, re.M)
+    if m:
+        try:
+            c = json.loads(m.group(1))
+        except Exception:
+            c = {"raw": m.group(1)}
+        c.update({"reproduced": True, "kind": "search", "search_s": round(dt, 1)})
+        return {"found": True, "seconds": round(dt, 1)}, c
+    m = re.search(r"NONE evaluations=(\d+) distinct=(\d+)", out)
+    return {"found": False, "evaluations": int(m.group(1)) if m else 0, "distinct": int(m.group(2)) if m else 0, "seconds": round(dt, 1)}, None
 
 
 def replay_file(path):
